@@ -275,8 +275,15 @@ def _end_redirects_and_joins(ctx, rep, tier):
               "`end` clause leaves the machine in the loop exit while DONE/FAIL is answered for the nominal target")
     ok = model.has(q, "answers_differently = sorted((self.dfa.states.index(x) for x in redirected_to if x in self.dfa.states and (x in self.dfa.accepting_states) != (final_state in self.dfa.accepting_states)))") and \
         model.has(q, "if answers_differently:\n    redirected = ' || '.join((f'state->state == {x}' for x in answers_differently))\n    if final_state in self.dfa.accepting_states:\n"
-                     "        result.add(f'if ({redirected}) return {self.program_name.upper()}_FAIL;')\n    else:\n        result.add(f'if ({redirected}) return {self.program_name.upper()}_DONE;')")
-    rep.check(ok, "C17.g", q, "redirect targets whose acceptance differs are tested on state->state and answered with the opposite result", "the run-time test for redirected end transitions changed")
+                     "        result.add(f'if ({redirected}) goto repeatswitch;')\n    else:\n        result.add(f'if ({redirected}) return {self.program_name.upper()}_DONE;')")
+    rep.check(ok, "C17.g", q, "redirect targets whose acceptance differs are tested on state->state: an accepting one answers DONE, a non-accepting one is re-dispatched (end-of-input still pending there)",
+              "the run-time test for redirected end transitions changed")
+    # (F-128) ... and the test is reachable: the transition body does not answer DONE on its own when an action may have left (decided on the emission paths: C02.b / C10.a, row end_nonfall)
+    tbq = "CodegenCtx._generate_transition_body"
+    ok = any(isinstance(n, ast.If) and "immediate_done" in ast.unparse(n.test) and "from_end" in ast.unparse(n.test) and "leaves_for_elsewhere" in ast.unparse(n.test) for n in ast.walk(model.func(tbq)))
+    rep.check(ok, "C17.g", tbq, "in end() the immediate DONE is not answered where an action may have left for another state",
+              "the transition body answers DONE for its own target in end() although an action (a break under an if) may have sent the machine elsewhere: the caller's test on state->state is dead code "
+              "(`end -> { if a == 2 { break inner; } break outer; }`: DONE from a non-accepting state)")
     body = strip_doc(model.func(q).body)
     idx_t = next((i for i, st in enumerate(body) if isinstance(st, ast.If) and ast.unparse(st.test) == "answers_differently"), None)
     idx_s = next((i for i, st in enumerate(body) if isinstance(st, ast.If) and ast.unparse(st.test) == "final_state in self.dfa.accepting_states"), None)
